@@ -209,6 +209,10 @@ def h_layer(e, cfg):
     for t in range(Tn):
         xs = [e.sym((B, 3), torch.bool, f"x{t}{i}", ind=True) for i in range(2)]
         oP = flat(step(P, xs))
+        from harness.common import witness_any
+        witness_any(e, "layer:a-neuron-spikes", *oP)
+        if kind == "recurrent" and t >= 1:
+            witness_any(e, "layer:a-feedback-spike-is-fed-back", P.feedback_spikes)
         for b, (q, nq) in enumerate(Qs):
             oQ = flat(step(q, [x[b:b + 1] for x in xs]))
             for i, (u, v) in enumerate(zip(oP, oQ)):
